@@ -327,7 +327,7 @@ Definition check_case (c : case) : bool :=
             for t in ['', '\n', '#c\n', '1.0\n', '1.0 2.0\n', '1.0 2.0 0.5\n', '1.0 2.0 0.5 7\n', 'C major\n', 'x\n', '1.0 a b\n',
                       '1.0 2.0 a b\n', '1.0, 60.0\n', 'pattern1\noccurrence1\n1.0, 60.0\n', '1.0']:
                 add(fn, t)
-        # the two suspected defects and their neighbours
+        # the two former defects (fixed by /repo 7de24cd, f596eb3) and their neighbours
         for t in ['pattern1\noccurrence1\n1.0\n', 'pattern1\noccurrence1\n1.0 60.0\n', 'pattern1\noccurrence1\nabc\n',
                   'pattern1\noccurrence1\n\n', 'pattern1\noccurrence1\n1.0, 60.0\n\n', 'pattern1\noccurrence1\n1.0,60.0,3\n',
                   '1.0, 60.0\n2.0, 61.0', 'pattern1\npattern2\n', 'occurrence1\n1,2\npattern\n3,4\n', 'pattern1\noccurrence1\n1.0, 60.0\noccurrence2\n2.0, 61.0\npattern2\noccurrence1\n3.0, 62.0\n',
@@ -413,7 +413,8 @@ Definition check_case (c : case) : bool :=
                 shutil.rmtree(d, ignore_errors=True)
         toks = candidate_tokens(text, dre)
         tab = [(t, py_float(t)) for t in toks]
-        # float() ignores surrounding whitespace: the table must be consistent with that
+        # informational only (not used by the model, whose conv is keyed by the exact token): float(t) == float(t.strip())
+        # holds except for the ASCII separators \x1c-\x1f, which str.strip() removes but float() rejects in an ASCII string
         strip_ok = all(py_float(t) == py_float(t.strip()) for t in toks)
         tabv = [(t, np_float(t)) for t in toks] if fn == 'ragged' else []
         return {'sio': o1, 'path': o2, 'table': tab, 'tablev': tabv, 'float_strip_invariant': strip_ok}
